@@ -390,7 +390,7 @@ def check_uci(pid, tier, seed):
     # isready during a long search: readyok must come before that search's bestmove
     for j in range(4 if quick else 40):
         pc = pool.position_cmd("open")
-        sessions.append((200000 + j, True, "immediate", [pc, {"kind": "go", "line": "go movetime 2500", "long": True}, {"kind": "isready", "line": "isready"},
+        sessions.append((200000 + j, True, "immediate", [pc, {"kind": "go", "line": "go movetime 9000", "long": True}, {"kind": "isready", "line": "isready"},
                                                             {"kind": "stop", "line": "stop"}, {"kind": "quit", "line": "quit"}]))
     if pid == "C07":
         for j, f in enumerate(pool.hard_roots if not quick else pool.hard_roots[seed % 3::3]):
